@@ -138,6 +138,8 @@ def _run_replay(ctx):
         events = vlib.read_ndjson(ctx.path("trace.ndjson"))
         _check_modelbad(res, events)
         _report_trace_bad(ctx, res, events)
+    elif payload["kind"] == "widedisp":
+        return wide_display(ctx)
     elif payload["kind"] in ("replay", "trace"):
         import core_common as cc
         return cc.replay_core(ctx, OPTCOND)
@@ -145,6 +147,30 @@ def _run_replay(ctx):
         raise vlib.MachineryError("unknown replay payload kind %r" % payload.get("kind"))
     ctx.cover(replayed=1, states=sum(x["distinct"] for x in ctx.tlc_runs), transitions=sum(x["generated"] for x in ctx.tlc_runs),
               traces_validated_against_impl=1, samples=[payload.get("source")])
+
+
+def wide_display(ctx):
+    """Display of doubles outside the exact window (huge integral values, full mantissas, infinities): what a line shows, read back
+    as a decimal, is the number again; an integral number is shown without a decimal point (doubles as bit patterns, WideArithTrace)."""
+    import struct
+    tp = ctx.path("widedisp.ndjson")
+    ctx.harness(["core", "widearith", "--display", "1", "--n", 20000 if ctx.tier == "thorough" else 2000, "--out", tp])
+    t = ctx.tlc("WideArithTrace", files=[("trace.ndjson", tp)], workers=1, timeout=900, label="WideArithTrace (display of doubles)")
+    res = t.printed("RESULT")
+    events = vlib.read_ndjson(tp)
+    if not res or res[-1]["lines"] != len(events):
+        raise vlib.MachineryError("display trace not consumed:\n" + t.tail())
+    if any(b["what"] == "malformed-event" for b in res[-1]["bad"]):
+        raise vlib.MachineryError("the harness wrote a malformed display event: %s" % res[-1]["bad"][0])
+
+    def show(tok):
+        return repr(struct.unpack(">d", bytes.fromhex(tok[1:]))[0]) if tok.startswith("f") and len(tok) == 17 else tok
+    for b in res[-1]["bad"][:3]:
+        e = events[b["line"] - 1]
+        ctx.violation({"kind": "widedisp", "event": e},
+                      "a line showing the number %s: the shown text reads back as %s" % (show(e["a"]), show(e["got"])),
+                      signature="lines:wide-display-" + b["what"])
+    ctx.cover(wide_double_displays=len(events))
 
 
 def _optcond_scope(field, exp, got, info):
@@ -276,6 +302,7 @@ def run(ctx):
         binding_selftest=selftest,
         samples=samples,
     )
+    wide_display(ctx)
     import core_common as cc
     cc.run_core_check(ctx, OPTCOND)
     ctx.assumptions += [
